@@ -26,6 +26,8 @@ SignExt(x, wa, wr) == FromSigned(ToSigned(x % Pow2(wa), wa), wr)
 
 Shl(x, n) == x * Pow2(n)
 Shr(x, n) == x \div Pow2(n)
+\* (x << n) mod 2^w without ever forming x * 2^n (TLC integers are 32 bit)
+ShlMod(x, n, w) == IF n >= w THEN 0 ELSE (x % Pow2(w - n)) * Pow2(n)
 \* arithmetic shift right of the w-bit pattern x: floor(signed(x) / 2^n)
 Sar(x, n, w) == FromSigned(ToSigned(x, w) \div Pow2(n), w)
 
@@ -54,8 +56,8 @@ BitLen(x) == IF x = 0 THEN 0 ELSE 1 + BitLen(x \div 2)
 Clz(x, w) == w - BitLen(x % Pow2(w))
 
 \* rotate the w-bit pattern x left / right by n (0 <= n <= w)
-Rotl(x, n, w) == ((x * Pow2(n)) % Pow2(w)) + (x \div Pow2(w - n))
-Rotr(x, n, w) == (x \div Pow2(n)) + ((x * Pow2(w - n)) % Pow2(w))
+Rotl(x, n, w) == ShlMod(x, n, w) + (x \div Pow2(w - n))
+Rotr(x, n, w) == (x \div Pow2(n)) + ShlMod(x, w - n, w)
 
 Max(a, b) == IF a >= b THEN a ELSE b
 Min(a, b) == IF a <= b THEN a ELSE b
